@@ -21,22 +21,25 @@ def unixMicro (t : Int × Int) : Int := t.1 * 1000000 + t.2 / 1000
 def timeOfEpoch (epoch : Int) : Int × Int :=
   goUnix (Int.tdiv epoch 1000000) (Int.tmod epoch 1000000 * 1000)
 
-def int64Bytes (e : Int) : Bytes := be64 (UInt64.ofInt e)
+/-- the eight `byte(epoch >> k)` of an int64 -/
+def int64Bytes (e : Int) : Bytes := be64 (Int64.ofInt e).toUInt64
 
 def int64OfBytes (bs : Bytes) : Int :=
   (bs.foldl (fun (acc : UInt64) (b : UInt8) => (acc <<< (8 : UInt64)) ||| b.toUInt64) (0 : UInt64)).toInt64.toInt
 
 inductive WOut
-  | wrote (chunks : List Bytes)          -- successful: the transport writes performed, in order
-  | failed (chunks : List Bytes) (e : WErr)
+  | wrote (bytes : Bytes)                  -- everything handed to the transport, in order
+  | failed (bytes : Bytes) (e : WErr)      -- bytes handed over before the failure, and the error returned
 deriving Repr, DecidableEq
 
-/-- tlog.Writer.Write on the unchanged tree: timestamp is written before the frame is encoded -/
-def writeEntry (d : WDialect) (epochMicro : Int) (f : Frame) : WOut :=
+/-- tlog.Writer.Write (after `fix: tlog.Writer must not leave a partial entry…`): the entry is assembled in a
+    buffer — timestamp, then the encoded frame — and handed to the transport in ONE Write call, only when the frame
+    could be encoded. `failAt` = index of the transport Write call that fails (none = no failure). -/
+def writeEntry (d : WDialect) (epochMicro : Int) (f : Frame) (failAt : Option Nat) : WOut :=
   let tsb := int64Bytes epochMicro
   match frameWrite d f with
-  | .error e => .failed [tsb] e
-  | .ok (bs, _) => .wrote [tsb, bs]
+  | .error e => .failed [] e
+  | .ok (bs, _) => if failAt = some 0 then .failed [] (.transport 0) else .wrote (tsb ++ bs)
 
 inductive RdRes
   | entry (epochMicro : Int) (t : Int × Int) (f : Frame)
